@@ -219,7 +219,28 @@ func c18CLI(c *eng.Ctx) {
 		c.Undecided("R-C18-3", nil, 0, "cmd/setec.runPut / checkPutText", "anchors do not resolve")
 		return
 	}
-	argField := func(v ssa.Value, name string) bool {
+	var argField func(v ssa.Value, name string) bool
+	argField = func(v ssa.Value, name string) bool {
+		// a flag handed down as a parameter: the flag field at every call site
+		if prm, isP := eng.Origin(v).(*ssa.Parameter); isP {
+			f := prm.Parent()
+			sites := eng.StaticCallSites(f)
+			if len(sites) == 0 || (f.Object() != nil && f.Object().Exported()) {
+				return false
+			}
+			for _, cs := range sites {
+				okSite := false
+				for i, q := range f.Params {
+					if q == prm && i < len(cs.Common().Args) && cs.Parent() != f {
+						okSite = argField(cs.Common().Args[i], name)
+					}
+				}
+				if !okSite {
+					return false
+				}
+			}
+			return true
+		}
 		u, ok := eng.Origin(v).(*ssa.UnOp)
 		if !ok || u.Op != token.MUL {
 			return false
@@ -358,6 +379,20 @@ func c18CLI(c *eng.Ctx) {
 		}
 		return false
 	}
+	// terminalSource: the value is what term.ReadPassword returned, possibly
+	// handed up through helpers of the command that return it unchanged
+	var terminalSource func(v ssa.Value, depth int) bool
+	terminalSource = func(v ssa.Value, depth int) bool {
+		tc, tidx := eng.TupleCall(v)
+		if tc == nil || depth > 3 {
+			return false
+		}
+		if eng.CalleeIs(&tc.Call, "golang.org/x/term", "ReadPassword") {
+			return tidx == 0
+		}
+		inner, _ := eng.ThroughHelper(v, func(g *ssa.Function) bool { return eng.FuncPkg(g) == eng.FuncPkg(runPut) })
+		return inner != nil && terminalSource(inner, depth+1)
+	}
 	for _, lf := range leaves {
 		site := "value sent by `setec put`: " + eng.ValStr(lf.Val)
 		call, idx := eng.TupleCall(lf.Val)
@@ -417,6 +452,33 @@ func c18CLI(c *eng.Ctx) {
 			c.Check(hit == nil, "R-C18-3", runPut, call.Pos(), site+" [refusal]", "when checkPutText refuses, put returns without contacting the server", "the Put request is reachable after the refusal")
 		case eng.CalleeIs(&call.Call, "golang.org/x/term", "ReadPassword"):
 			c.Ok("R-C18-3", runPut, call.Pos(), site, "terminal input (sent as typed)")
+		case terminalSource(lf.Val, 0):
+			c.Ok("R-C18-3", runPut, call.Pos(), site, "terminal input read by a helper (sent as typed)")
+			// the empty test may be at any level of the helper chain
+			v, fn := lf.Val, runPut
+			for depth := 0; depth < 3 && !emptyInHelper; depth++ {
+				hc, _ := eng.TupleCall(v)
+				if hc == nil {
+					break
+				}
+				h := eng.Callee(&hc.Call)
+				inner, _ := eng.ThroughHelper(v, func(g *ssa.Function) bool { return eng.IsHelper(fn, g) })
+				if inner == nil {
+					break
+				}
+				if ic, _ := eng.TupleCall(inner); ic != nil {
+					if hit, _ := emptyReach(h, ic, inner, nilErrReturn); hit == nil {
+						emptyInHelper = true
+						cal, inner2 := h, ic
+						_ = cal
+						c.Ok("R-C18-3", h, inner2.Pos(), site+" [empty]", "refused inside "+eng.FName(h)+": with len(value) == 0 and !EmptyOK it has no successful return")
+					}
+				}
+				v, fn = inner, h
+			}
+			if emptyInHelper {
+				continue
+			}
 		default:
 			c.Bad("R-C18-3", runPut, put.Pos(), site, "the result of checkPutText on the bytes read, or the confirmed terminal input", "other source "+eng.CallStr(&call.Call))
 		}
